@@ -592,6 +592,9 @@ func captureAll(c fiber.Ctx, q request) []*captured {
 	keys := keysFor(q)
 	for i := 0; i < ct.NumMethod(); i++ {
 		m := ct.Method(i)
+		if m.PkgPath != "" {
+			continue // unexported interface methods cannot be called from outside the package
+		}
 		mt := m.Type
 		text := false
 		for o := 0; o < mt.NumOut(); o++ {
